@@ -562,6 +562,10 @@ def explore(harness, *, seed=0, max_paths=10**7, deadline=None, on_violation=Non
                 on_path_end(ctx, sp)
         except PathAbort:
             sp.stats["infeasible"] += 1
+            # obligations evaluated before the path was cut (e.g. after a recorded violation)
+            # were evaluated under a feasible path condition: they count as reached
+            labels |= ctx.labels
+            witness |= ctx.witness
         except (Unsupported, Nondeterminism) as e:
             sp.stats["aborted"] += 1
             k = f"{type(e).__name__}: {e}"
